@@ -64,6 +64,7 @@ class Lock:
 
 def coq_makefile():
     """(Re)generate coq/Makefile when _CoqProject changed."""
+    sh([os.path.join(ROOT, "tools", "coqproject.sh")])
     mk = os.path.join(COQ, "Makefile")
     cp = os.path.join(COQ, "_CoqProject")
     if (not os.path.exists(mk)) or os.path.getmtime(mk) < os.path.getmtime(cp):
@@ -359,8 +360,9 @@ class Ctx:
             ev["coverage"]["known_findings_confirmed"] = self.known_hits
         if not ev["coverage"].get("samples"):
             ev["coverage"]["samples"] = ["(none recorded)"]
-        os.makedirs(os.path.join(ROOT, "evidence"), exist_ok=True)
-        with open(os.path.join(ROOT, "evidence", "%s.json" % self.pid), "w") as f:
+        evdir = os.path.join(ROOT, "evidence") if REPO == "/repo" else os.path.join(WORK, "scratch-evidence")
+        os.makedirs(evdir, exist_ok=True)
+        with open(os.path.join(evdir, "%s.json" % self.pid), "w") as f:
             json.dump(ev, f, indent=1, default=str)
         return 1 if self.violations else 0
 
